@@ -2,71 +2,73 @@ import Uds.Model.DecodeDtc
 import Uds.Model.Editions
 import Uds.Generated.Bounds
 /-
-  Tie by translation for argument ranges: the literal `min` / `max` of every `validate_int` call in the service modules is read out
-  of the source text on every run (harness/extract.py) and the model's request builders are proved to accept *exactly* that interval
-  at its boundary: `lo - 1` refused, `lo` and `hi` accepted, `hi + 1` refused, with the extracted numbers.  Changing a bound in /repo
-  (the classic 0x7F → 0xFF slip) breaks one of these kernel-checked facts.
+  Tie for argument ranges: on every run harness/extract.py runs the real request builders (and two interpreter guards) at a fixed set
+  of probe values around every power-of-two boundary and records, per validated integer argument, the smallest and the largest accepted
+  probe and whether every probe in between was accepted (`Generated.bounds`).  Here the model's builders are proved to accept *exactly*
+  that interval at its boundary: `lo - 1` refused, `lo` and `hi` accepted, `hi + 1` refused, with the recorded numbers.  Changing a bound
+  in /repo (the classic 0x7F → 0xFF slip) breaks one of these kernel-checked facts; a rewrite of the validation code that keeps the
+  accepted interval does not (the table is behavioural, not a reading of the source text).
 -/
 namespace Uds.Tie.Bounds
 open Uds Uds.Model
 
-def bound (file fn arg : String) : Option (Int × Int) :=
-  (Generated.bounds.find? (fun r => r.1 == file && r.2.1 == fn && r.2.2.1 == arg)).map (fun r => (r.2.2.2.1, r.2.2.2.2))
+def bound (arg : String) : Option (Int × Int) :=
+  (Generated.bounds.find? (fun r => r.1 == arg)).bind (fun r => if r.2.2.2 then some (r.2.1, r.2.2.1) else none)
 
 def isOk {α : Type} (r : Py α) : Bool := match r with | .ok _ => true | .error _ => false
 
-/-- `f` accepts exactly `[lo, hi]` at the boundary, for the bounds extracted for `(file, fn, arg)` -/
-def exact {α : Type} (file fn arg : String) (f : Int → Py α) : Bool :=
-  match bound file fn arg with
+/-- `f` accepts exactly `[lo, hi]` at the boundary, for the interval recorded for `arg` (which must be gap-free on the probes) -/
+def exact {α : Type} (arg : String) (f : Int → Py α) : Bool :=
+  match bound arg with
   | some (lo, hi) => !isOk (f (lo - 1)) && isOk (f lo) && isOk (f hi) && !isOk (f (hi + 1))
   | none => false
 
 theorem simple_services :
-    exact "DiagnosticSessionControl.py" "make_request" "session" dscMakeRequest = true ∧
-    exact "ECUReset.py" "make_request" "reset_type" ecuResetMakeRequest = true ∧
-    exact "ControlDTCSetting.py" "make_request" "setting_type" (fun t => controlDtcMakeRequest t none) = true ∧
-    exact "AccessTimingParameter.py" "make_request" "access_type" (fun t => accessTimingMakeRequest t (if t == 4 then some [] else none)) = true ∧
-    exact "CommunicationControl.py" "make_request" "control_type" (fun t => commControlMakeRequest 2006 t 1 none) = true ∧
-    exact "CommunicationControl.py" "make_request" "node_id" (fun n => commControlMakeRequest 2020 4 1 (some n)) = true ∧
-    exact "LinkControl.py" "make_request" "control_type" (fun t => linkControlMakeRequest t (if t == 1 || t == 2 then some ⟨9600, .fixed⟩ else none)) = true ∧
-    exact "RoutineControl.py" "make_request" "routine_id" (fun r => routineControlMakeRequest r 1 none) = true ∧
-    exact "RoutineControl.py" "make_request" "control_type" (fun t => routineControlMakeRequest 0x1234 t none) = true ∧
-    exact "TransferData.py" "make_request" "sequence_number" (fun q => transferDataMakeRequest q none) = true ∧
-    exact "ClearDiagnosticInformation.py" "make_request" "group" (fun g => clearDtcMakeRequest 2020 g none) = true ∧
-    exact "ClearDiagnosticInformation.py" "make_request" "memory_selection" (fun m => clearDtcMakeRequest 2020 0 (some m)) = true ∧
-    exact "SecurityAccess.py" "normalize_level" "level" (fun l => saMakeRequest l .requestSeed []) = true ∧
-    exact "SecurityAccess.py" "normalize_level" "level" (fun l => saMakeRequest l .sendKey []) = true := by decide +kernel
+    exact "dsc.session" dscMakeRequest = true ∧
+    exact "ecuReset.reset_type" ecuResetMakeRequest = true ∧
+    exact "controlDtc.setting_type" (fun t => controlDtcMakeRequest t none) = true ∧
+    exact "accessTiming.access_type" (fun t => accessTimingMakeRequest t (if t == 4 then some [] else none)) = true ∧
+    exact "commControl.control_type" (fun t => commControlMakeRequest 2006 t 1 none) = true ∧
+    exact "commControl.node_id" (fun n => commControlMakeRequest 2020 4 1 (some n)) = true ∧
+    exact "linkControl.control_type" (fun t => linkControlMakeRequest t (if t == 1 || t == 2 then some ⟨9600, .fixed⟩ else none)) = true ∧
+    exact "routine.routine_id" (fun r => routineControlMakeRequest r 1 none) = true ∧
+    exact "routine.control_type" (fun t => routineControlMakeRequest 0x1234 t none) = true ∧
+    exact "transferData.sequence_number" (fun q => transferDataMakeRequest q none) = true ∧
+    exact "clearDtc.group" (fun g => clearDtcMakeRequest 2020 g none) = true ∧
+    exact "clearDtc.memory_selection" (fun m => clearDtcMakeRequest 2020 0 (some m)) = true ∧
+    exact "securityAccess.seed_level" (fun l => saMakeRequest l .requestSeed []) = true ∧
+    exact "securityAccess.key_level" (fun l => saMakeRequest l .sendKey []) = true := by decide +kernel
 
 def didCfgAll : DidCfg := { default := some (some 1) }
 def ioCfgAll : IoCfg := { default := some { codecLen := some 1 } }
 
 theorem identifier_services :
-    exact "WriteDataByIdentifier.py" "make_request" "did" (fun d => wdbiMakeRequest didCfgAll d [0]) = true ∧
-    exact "ReadDataByIdentifier.py" "validate_didlist_input" "did" (fun d => rdbiMakeRequest (some didCfgAll) [d]) = true ∧
-    exact "InputOutputControlByIdentifier.py" "make_request" "did" (fun d => ioMakeRequest ioCfgAll d none none none) = true ∧
-    exact "DynamicallyDefineDataIdentifier.py" "make_request" "did" (fun d => dddByDidMakeRequest d [⟨0x1234, 1, 1⟩]) = true := by decide +kernel
+    exact "wdbi.did" (fun d => wdbiMakeRequest didCfgAll d [0]) = true ∧
+    exact "rdbi.did" (fun d => rdbiMakeRequest (some didCfgAll) [d]) = true ∧
+    exact "io.did" (fun d => ioMakeRequest ioCfgAll d none none none) = true ∧
+    exact "ddd.did" (fun d => dddByDidMakeRequest d [⟨0x1234, 1, 1⟩]) = true := by decide +kernel
 
 theorem dtc_arguments :
-    exact "ReadDTCInformation.py" "check_subfunction_valid" "subfunction" (fun sf => (validateInt sf 1 0x7F : Py Unit)) = true ∧
-    exact "ReadDTCInformation.py" "assert_status_mask" "status_mask" (fun v => dtcMakeRequest 2020 { sf := 0x02, statusMask := some v }) = true ∧
-    exact "ReadDTCInformation.py" "assert_severity_mask" "severity_mask" (fun v => dtcMakeRequest 2020 { sf := 0x08, statusMask := some 1, severityMask := some v }) = true ∧
-    exact "ReadDTCInformation.py" "assert_dtc" "dtc" (fun v => dtcMakeRequest 2020 { sf := 0x09, dtc := some v }) = true ∧
-    exact "ReadDTCInformation.py" "assert_snapshot_record_number" "snapshot_record_number" (fun v => dtcMakeRequest 2020 { sf := 0x05, snapRec := some v }) = true ∧
-    exact "ReadDTCInformation.py" "assert_memory_selection" "memory_selection" (fun v => dtcMakeRequest 2020 { sf := 0x17, statusMask := some 1, memSel := some v }) = true ∧
-    exact "ReadDTCInformation.py" "assert_functional_group_id" "functional_group_id" (fun v => dtcMakeRequest 2020 { sf := 0x55, fgid := some v }) = true ∧
-    exact "ReadDTCInformation.py" "make_request" "dtc_class" (fun v => dtcMakeRequest 2020 { sf := 0x42, statusMask := some 1, severityMask := some 0, dtcClass := some v, fgid := some 1 }) = true ∧
-    exact "ReadDTCInformation.py" "assert_extended_data_size_int_or_dict" "extended_data_size" (fun v => checkExtSize (.int v)) = true := by decide +kernel
+    exact "dtc.status_mask" (fun v => dtcMakeRequest 2020 { sf := 0x02, statusMask := some v }) = true ∧
+    exact "dtc.severity_mask" (fun v => dtcMakeRequest 2020 { sf := 0x08, statusMask := some 1, severityMask := some v }) = true ∧
+    exact "dtc.dtc" (fun v => dtcMakeRequest 2020 { sf := 0x09, dtc := some v }) = true ∧
+    exact "dtc.snapshot_record_number" (fun v => dtcMakeRequest 2020 { sf := 0x05, snapRec := some v }) = true ∧
+    exact "dtc.memory_selection" (fun v => dtcMakeRequest 2020 { sf := 0x17, statusMask := some 1, memSel := some v }) = true ∧
+    exact "dtc.functional_group_id" (fun v => dtcMakeRequest 2020 { sf := 0x55, fgid := some v }) = true ∧
+    exact "dtc.dtc_class" (fun v => dtcMakeRequest 2020 { sf := 0x42, statusMask := some 1, severityMask := some 0, dtcClass := some v, fgid := some 1 }) = true ∧
+    exact "dtc.extended_data_size" (fun v => checkExtSize (.int v)) = true := by decide +kernel
 
 /-- every optional parameter given, so that each task finds what it needs -/
 def authFull (t : Int) : AuthArgs :=
   { task := t, commConf := some 0, certClient := some [1], challengeClient := some [1], algo := some (List.replicate 16 0), certEvalId := some 0, certData := some [1], pownClient := some [1], ephKeyClient := some [1], addParam := some [1] }
 
 theorem authentication_arguments :
-    exact "Authentication.py" "make_request" "authentication_task" (fun t => authMakeRequest (authFull t)) = true ∧
-    exact "Authentication.py" "make_request" "communication_configuration" (fun v => authMakeRequest { task := 1, commConf := some v, certClient := some [1], challengeClient := some [1] }) = true ∧
-    exact "Authentication.py" "make_request" "certificate_evaluation_id" (fun v => authMakeRequest { task := 4, certEvalId := some v, certData := some [1] }) = true := by decide +kernel
+    exact "auth.authentication_task" (fun t => authMakeRequest (authFull t)) = true ∧
+    exact "auth.communication_configuration" (fun v => authMakeRequest { task := 1, commConf := some v, certClient := some [1], challengeClient := some [1] }) = true ∧
+    exact "auth.certificate_evaluation_id" (fun v => authMakeRequest { task := 4, certEvalId := some v, certData := some [1] }) = true := by decide +kernel
 
 /-- the snapshot DID width accepted by the interpreters -/
-theorem did_size_bound : bound "ReadDTCInformation.py" "interpret_response" "dtc_snapshot_did_size" = some (1, 8) := by decide
+theorem did_size_bound :
+    exact "dtc.snapshot_did_size" (fun k => snapByDtcInterpret { didSize := k.toNat, tol := true } 4 (if k < 0 then [] else [4, 0x12, 0x34, 0x56, 0x00])) = true := by decide +kernel
 
 end Uds.Tie.Bounds
